@@ -658,6 +658,8 @@ fn main() {
     let l = |aggs: Vec<u8>, proofs: Vec<u8>, tamper, n_keys| Layer { run: &run, aggs, proofs, n_keys, small: false, all_inputs: false, tamper, tally: &tally };
     build::<Field64, _>(&Spec::Count, l(vec![2, 3], vec![1, 2], tl, nk)).unwrap();
     build::<Field64, _>(&Spec::Sum { max: 5 }, l(vec![2], vec![1], tl, nk)).unwrap();
+    // bound of full field width (64 digits over Field64)
+    build::<Field64, _>(&Spec::Sum { max: 1 << 63 }, l(vec![2], vec![1], TamperLevel::None, 2)).unwrap();
     build::<Field128, _>(&Spec::SumVec { max: 3, len: 3, chunk: 4 }, l(vec![2, 3], vec![1], tl, nk)).unwrap();
     build::<Field128, _>(&Spec::Histogram { len: 4, chunk: 3 }, l(vec![2, 3], vec![1, 2], tl, nk)).unwrap();
     build::<Field128, _>(&Spec::Multihot { len: 3, max_weight: 2, chunk: 2 }, l(vec![2], vec![1], tl, nk)).unwrap();
